@@ -154,7 +154,7 @@ pub fn run(a: &Args) {
             sink.count("stopped-early-after-timeouts");
             break;
         }
-        let hs: Vec<_> = chunk.iter().map(|&s| std::thread::spawn(move || (s, scenario(s)))).collect();
+        let hs: Vec<_> = chunk.iter().map(|&s| std::thread::spawn(move || (s, crate::l2::watchdog(format!("l2 {}", s), 150, move || scenario(s))))).collect();
         for h in hs {
             match h.join() {
                 Ok((s, Some((term, n, bytes)))) => {
